@@ -69,7 +69,7 @@ def sweep_calls(v):
             c.append(('lstrip', [p], {'inplace': inpl}))
             c.append(('rstrip', [p], {'inplace': inpl}))
             for new in ('', 'zz', p, ['S'], ['T'], 5, None):
-                for cnt in (-1, 0, 1, BIG):
+                for cnt in (-1, -BIG, 0, 1, BIG):
                     c.append(('replace', [p, new, cnt], {'inplace': inpl}))
         for k in (-1, 0, 1, BIG):
             c.append(('split', [p, k], {}))
